@@ -17,6 +17,7 @@ sys.path.insert(0, VERIF)
 from selftest.mutants import MUTANTS  # noqa: E402
 
 SCRATCH = "/var/tmp/pyunicorn-verif-mut"
+BASE = os.environ.get("VERIF_BASE", "/repo")
 
 
 def make_copy(name):
@@ -25,11 +26,11 @@ def make_copy(name):
     os.makedirs(d)
     subprocess.run(["rsync", "-a", "--exclude", "*.so", "--exclude",
                     "__pycache__", "--exclude", "build", "--exclude",
-                    "*.egg-info", "/repo/src", d + "/"], check=True)
+                    "*.egg-info", BASE + "/src", d + "/"], check=True)
     for f in ("setup.py", "setup.cfg", "pyproject.toml", "MANIFEST.in",
               "README.rst", "LICENSE.txt"):
-        if os.path.exists("/repo/" + f):
-            shutil.copy2("/repo/" + f, d)
+        if os.path.exists(BASE + "/" + f):
+            shutil.copy2(BASE + "/" + f, d)
     return d
 
 
